@@ -474,6 +474,84 @@ def g_mutation(r, spec):
     return m
 
 
+# ---- time_begin against every boundary of every obstacle's horizon (round-6 dimension: predictions that start later than the
+# step after the initial state, so that there is a gap in which the obstacle reports no occupancy and no state)
+REQUIRED_BUCKETS += ["obst:dyn-traj-gap", "obst:dyn-traj-gap>len", "horizon:before-initial", "horizon:at-initial",
+                     "horizon:in-gap/traj", "horizon:in-gap/set", "horizon:first-step", "horizon:inside", "horizon:last-step",
+                     "horizon:after-end", "horizon:in-hole/set", "horizon:phantom-occupancy", "horizon:phantom-no-occupancy",
+                     "gap-obstacle:before-initial", "gap-obstacle:at-initial", "gap-obstacle:in-gap", "gap-obstacle:first-step",
+                     "gap-obstacle:last-step", "gap-obstacle:after-end",
+                     "plain:in-gap/traj", "plain:in-gap>len/traj", "plain:prediction-after-gap"]
+RULE += ("; trajectory predictions start at initial step + 1 + gap, gap 0 (60%) / 1 / 2 / 4 / 7 steps (shorter and longer than the "
+         "trajectory of 1..6 states), also for focus obstacles and for predictions assigned between frames; time_begin is taken "
+         "from the points around every horizon boundary of every obstacle (before / at / after the initial step, the first and the "
+         "last prediction step) plus every step of a gap or hole, in ~30% of the cases with such steps directly from them")
+
+
+def horizon_of(o):
+    """(initial step, sorted steps covered by the prediction) of a dynamic / phantom obstacle, read from the time steps its own
+    states / occupancies carry (not from occupancy_at_time)."""
+    from commonroad.common.util import Interval
+    from commonroad.prediction.prediction import TrajectoryPrediction
+    init = o.initial_state.time_step if hasattr(o, "initial_state") else None
+    pr = o.prediction
+    steps = set()
+    if isinstance(pr, TrajectoryPrediction):
+        steps.update(int(st.time_step) for st in pr.trajectory.state_list)
+    elif pr is not None:
+        for oc in pr.occupancy_set:
+            ts = oc.time_step
+            steps.update(range(int(ts.start), int(ts.end) + 1) if isinstance(ts, Interval) else [int(ts)])
+    return init, sorted(steps)
+
+
+def tag_horizon(ctx, o, tb, plain):
+    """Coverage buckets: where time_begin lies relative to the horizon of this obstacle."""
+    from commonroad.prediction.prediction import TrajectoryPrediction
+    from commonroad.scenario.obstacle import DynamicObstacle, PhantomObstacle
+    if isinstance(o, PhantomObstacle):
+        _, steps = horizon_of(o)
+        ctx.tag("horizon:phantom-occupancy" if tb in steps else "horizon:phantom-no-occupancy")
+        return
+    if not isinstance(o, DynamicObstacle):
+        return
+    init, steps = horizon_of(o)
+    steps = [t for t in steps if t > init]  # occupancy_at_time answers from the prediction only after the initial step
+    kind = "traj" if isinstance(o.prediction, TrajectoryPrediction) else "set"
+    gap = steps[0] - init - 1 if steps else 0
+    longer = kind == "traj" and gap > len(steps)
+    if kind == "traj" and gap > 0:
+        ctx.tag("obst:dyn-traj-gap")
+        if longer:
+            ctx.tag("obst:dyn-traj-gap>len")
+    if tb < init:
+        where = "before-initial"
+    elif tb == init:
+        where = "at-initial"
+    elif not steps or tb > steps[-1]:
+        where = "after-end"
+    elif tb < steps[0]:
+        where = "in-gap/" + kind
+    elif tb == steps[0]:
+        where = "first-step"
+    elif tb == steps[-1]:
+        where = "last-step"
+    else:
+        where = "inside" if tb in steps else "in-hole/" + kind
+    ctx.tag("horizon:" + where)
+    if kind == "traj" and gap > 0:
+        ctx.tag("gap-obstacle:" + where.split("/")[0])
+        if tb == steps[-1]:
+            ctx.tag("gap-obstacle:last-step")  # a one-state trajectory: the first step is the last one
+        if plain:  # the cases in which the oracle judges clause (b) on an obstacle with a gap
+            if where == "in-gap/traj":
+                ctx.tag("plain:in-gap/traj")
+                if longer:
+                    ctx.tag("plain:in-gap>len/traj")
+            elif where in ("first-step", "inside", "last-step"):
+                ctx.tag("plain:prediction-after-gap")
+
+
 def gen_draw_case(ctx):
     r = ctx.rng
     spec = G.g_network(r)
@@ -486,9 +564,12 @@ def gen_draw_case(ctx):
     spec["pps"] = G.g_pps(r)
     pts = G.horizon_points(spec)
     tb = r.choice(pts)
+    classes = G.boundary_classes(spec)
+    if classes and r.random() < 0.5:
+        tb = r.choice(r.choice(classes))  # a boundary class of an obstacle whose horizon has a gap / hole, then a step of it
     if focus:
         o = spec["obstacles"][0]
-        tb = o["init"]["t"] + r.randint(0, len(o["pred"]["states"]))
+        tb = o["init"]["t"] + r.randint(0, o["pred"].get("gap", 0) + len(o["pred"]["states"]))
     te = r.choice([tb, tb + 1, tb + 2, tb + 3, r.choice(pts), tb + 40, tb + 40, tb - 1])
     mode = "plain" if r.random() < (0.2 if focus else 0.55) else "lattice"
     if mode == "plain" and te < tb:
@@ -1045,6 +1126,7 @@ def run_draw_case(ctx, case, model=True):
     rcfg = case.get("renderer", {})
     ctx.tag("draw:" + mode, "entry:" + entry, "style:" + style)
     for o in obstacles:
+        tag_horizon(ctx, o, tb, mode == "plain" and te >= tb and not case.get("outside"))
         if isinstance(o, StaticObstacle):
             ctx.tag("obst:static")
         elif isinstance(o, EnvironmentObstacle):
